@@ -489,9 +489,11 @@ func payloadIsSerialisedRecord(c *Ctx, w *ssa.Call) (bool, string) {
 	if len(payload) != 1 {
 		return false, fmt.Sprintf("write carries %d operands (expected exactly the serialised record)", len(payload))
 	}
-	v := peel(payload[0])
+	// values are followed through result temporaries of inlined helpers: a phi is resolved by
+	// the facts that hold where the value is used (`if ok {` selects the edge that set ok)
+	v := resolveAt(peel(payload[0]), w.Block())
 	if cv, ok := v.(*ssa.Convert); ok {
-		v = cv.X
+		v = resolveAt(cv.X, w.Block())
 	}
 	ex, ok := v.(*ssa.Extract)
 	if !ok || ex.Index != 0 {
@@ -501,7 +503,7 @@ func payloadIsSerialisedRecord(c *Ctx, w *ssa.Call) (bool, string) {
 	if !ok || calleeKey(&mc.Call) != c.pkgFn("MarshalOrdered") {
 		return false, "written value is not the result of MarshalOrdered"
 	}
-	rx, ok := mc.Call.Args[0].(*ssa.Extract)
+	rx, ok := resolveAt(mc.Call.Args[0], mc.Block()).(*ssa.Extract)
 	if !ok || rx.Index != 0 {
 		return false, "serialiser input is not the redactor's result"
 	}
@@ -509,7 +511,7 @@ func payloadIsSerialisedRecord(c *Ctx, w *ssa.Call) (bool, string) {
 	if !ok || calleeKey(&rc.Call) != c.pkgFn("RedactMongoLog") {
 		return false, "serialiser input is not RedactMongoLog's result"
 	}
-	tc, ok := rc.Call.Args[0].(*ssa.Call)
+	tc, ok := resolveAt(rc.Call.Args[0], rc.Block()).(*ssa.Call)
 	if !ok || calleeKey(&tc.Call) != "(*bufio.Scanner).Text" {
 		return false, "redactor input is not the scanned line"
 	}
